@@ -108,3 +108,21 @@ def eval_exprs(cases, workdir, name="exprs.c"):
         else:
             res.append((f"cbi_m_e{i}" in live, None))
     return res
+
+
+def token_lines(path, cwd=None):
+    """(ok, set of physical lines of `path` on which gcc -E (without -P) emits a token)."""
+    rc, out, err = run(BASE + [path], cwd=cwd or os.path.dirname(path))
+    lines = set()
+    cur = None
+    base = os.path.basename(path)
+    for ln in out.split("\n"):
+        m = re.match(r'^# (\d+) "([^"]*)"((?: \d+)*)$', ln)
+        if m:
+            cur = int(m.group(1)) if os.path.basename(m.group(2)) == base else None
+            continue
+        if cur is not None:
+            if ln.strip():
+                lines.add(cur)
+            cur += 1
+    return (rc == 0 and not err.strip()), lines, err
